@@ -204,6 +204,32 @@ end Ops
 
 namespace Ops
 
+/-- op "fetchsame": several simultaneous askers of one URL.  Predicate-only: they all get the same
+    answer, each within the time one fetch of that chain may take (dial timeout + deadline of its one
+    faulty connection) plus slack — not the sum over the askers. -/
+def fetchSameOp (j : Json) : Except String Res := do
+  let impl := (j.getObjVal? "impl").toOption.getD Json.null
+  let results : List Json := match impl.getObjVal? "results" with | .ok (Json.arr a) => a.toList | _ => []
+  let ms : List Nat := match impl.getObjVal? "ms" with
+    | .ok (Json.arr a) => a.toList.map fun v => (v.getNat?).toOption.getD 0
+    | _ => []
+  let timeoutS := ((j.getObjVal? "timeout_s").toOption.bind (·.getNat?.toOption)).getD 0
+  let agree := match results with
+    | [] => true
+    | r :: rest => rest.all (· == r)
+  -- exactly one connection of the chain is slow or silent (the generator made it so): one dial
+  -- timeout plus one deadline, whatever the number of askers
+  let timely := timeoutS == 0 || ms.all fun t => t ≤ 2 * timeoutS * 1000 + 1500
+  pure { model := impl, preds := [("same_answer_for_all_askers", agree), ("returns_within_time_bound", timely)],
+         nontrivial := results.length ≥ 2 }
+
+/-- op "par": functions of their input run alone and then all at once; predicate-only: the answers
+    are the same. -/
+def parOp (j : Json) : Except String Res := do
+  let impl := (j.getObjVal? "impl").toOption.getD Json.null
+  let agree := (impl.getObjVal? "agree").toOption == some (Json.bool true)
+  pure { model := impl, preds := [("same_answer_when_called_concurrently", agree)], nontrivial := true }
+
 /-- `client.ResolveWebfinger`: the request it issues and how it reads the JRD answer. -/
 def webfingerOp (j : Json) : Except String Res := do
   let impl := (j.getObjVal? "impl").toOption.getD Json.null
